@@ -107,8 +107,23 @@ def make_screen(spec, **extra):
     from batchie.data import Screen
 
     a = to_arrays(spec)
+    # memory layout is not part of a screen's value: a caller may hand in Fortran-ordered tables
+    # (np.vstack(cols).T, DataFrame.to_numpy()); which layout is used derives from the content
+    lay = spec.get("layout")
+    if lay is None:
+        lay = ["C", "C", "C", "F-both", "F-names", "F-doses"][kernel_h(spec) % 6]
+    if lay in ("F-both", "F-names"):
+        a["treatment_names"] = np.asfortranarray(a["treatment_names"])
+    if lay in ("F-both", "F-doses"):
+        a["treatment_doses"] = np.asfortranarray(a["treatment_doses"])
     a.update(extra)
     return Screen(**a)
+
+
+def kernel_h(spec):
+    import hashlib
+
+    return int(hashlib.sha256(repr((spec["control"], spec["arity"], len(spec["rows"]), spec["rows"][:2])).encode()).hexdigest()[:8], 16)
 
 
 def ceil_frac(size, fraction):
